@@ -135,9 +135,16 @@ fn panic_sig(p: &str) -> String {
 
 /// Run a batch in this thread's worker; returns one verdict per case.
 /// A worker death is bisected to single cases.
+/// reply time-out for one batch (seconds); lowered for sections whose inputs may legitimately diverge
+static BATCH_TIMEOUT_S: std::sync::atomic::AtomicI32 = std::sync::atomic::AtomicI32::new(60);
+
 fn run_batch(cases: &[Case]) -> Vec<(String, String)> {
+    run_batch_t(cases, BATCH_TIMEOUT_S.load(std::sync::atomic::Ordering::Relaxed))
+}
+
+fn run_batch_t(cases: &[Case], timeout_s: i32) -> Vec<(String, String)> {
     let req = json!({ "cases": cases });
-    match worker::call(&req) {
+    match worker::call_t(&req, timeout_s) {
         worker::Reply::Ok(v) => {
             if let Some(arr) = v["r"].as_array() {
                 if arr.len() == cases.len() {
@@ -162,8 +169,8 @@ fn run_batch(cases: &[Case]) -> Vec<(String, String)> {
                 vec![("died".to_string(), status)]
             } else {
                 let mid = cases.len() / 2;
-                let mut a = run_batch(&cases[..mid]);
-                a.extend(run_batch(&cases[mid..]));
+                let mut a = run_batch_t(&cases[..mid], timeout_s);
+                a.extend(run_batch_t(&cases[mid..], timeout_s));
                 a
             }
         }
@@ -219,7 +226,8 @@ fn self_recursive(src: &str) -> bool {
 }
 
 fn judge_single(c: &Case) -> Verdict {
-    let (k, t) = run_batch(std::slice::from_ref(c)).remove(0);
+    // single cases always get the long limit: a verdict must not depend on machine load
+    let (k, t) = run_batch_t(std::slice::from_ref(c), 60).remove(0);
     vp::report::EXECS.fetch_add(1, std::sync::atomic::Ordering::Relaxed);
     match k.as_str() {
         "ok" => Verdict::pass(&("ok", t)),
@@ -229,6 +237,9 @@ fn judge_single(c: &Case) -> Verdict {
         // truthy, e.g. after a one-character deletion in the corpus neighbourhood):
         // non-return of such an input says nothing about the property
         "died" if t.starts_with("timeout") && (c.src.contains("@while") || self_recursive(&c.src)) => Verdict::Trivial,
+        // an endless `@while` that keeps producing output runs into the worker's memory
+        // cap and aborts: still a diverging program, not a verdict
+        "died" if c.src.contains("@while") => Verdict::Trivial,
         // unbounded recursion of a user-defined function / mixin: the native stack overflows
         // (a genuine defect, but one specific, recognisable cause: own signature)
         "died" if !t.starts_with("timeout") && self_recursive(&c.src) => Verdict::fail_sig(
@@ -845,6 +856,9 @@ fn main() {
                 }
                 v
             });
+            // mutated programs may loop (`@while`, recursion): 48 small compiles take milliseconds,
+            // so a short limit keeps a diverging case from blocking a worker for minutes
+            BATCH_TIMEOUT_S.store(10, std::sync::atomic::Ordering::Relaxed);
             run_cases(&ck, "corpus-neighbourhood", "every single-character deletion and one token insertion (12 tokens, round-robin) at every character boundary of every corpus input <= 400 bytes", 420.0, it, &[]);
         }
     }
